@@ -25,6 +25,9 @@ structure DState where
   conn   : Conn.St := Conn.St.init false false
   sconn  : Sieve.Conn := ⟨none, false, 0⟩
   ns     : Namespace.NS := ⟨0, [], [], 1⟩
+  rw     : RWLock.St := RWLock.St.init []
+  idle   : Idle.St := Idle.St.init
+  faults : Faults.St := ⟨[], [], .start⟩
   sstore : Sieve.Store := []
   lbox   : Mailbox.MBox := Mailbox.MBox.new
   lobs   : List (Sync.View × Option Nat) := []
@@ -152,6 +155,46 @@ def parseSMsg (t : String) : Option Search.Msg :=
            sdate := if sd == "-" then none else some (Int.ofNat sd.toNat!), size := sz.toNat!, oracle := fun i => ids.contains i }
   | _ => none
 
+def showPC : RWLock.PC → String
+  | .idle => "idle" | .rWaitR => "rWaitR" | .rWaitW => "rWaitW" | .rIn => "rIn" | .wWaitW => "wWaitW" | .wIn => "wIn"
+  | .cR => "cR" | .cRW => "cRW" | .cW => "cW" | .dead => "dead"
+
+def showRW (s : RWLock.St) : String :=
+  s!"{s.counter} " ++ " ".intercalate (s.tasks.map (fun t => showPC t.pc ++ ":" ++ toString t.prog.length))
+
+def showIdle (s : Idle.St) : String :=
+  s!"{s.highest} {s.consumed} {s.written} " ++ (match s.pc with | .arm => "arm" | .wait => "wait" | .consume => "consume" | .write => "write" | .exit => "exit") ++
+  " " ++ (match s.fired with | none => "none" | some b => toString b) ++ " " ++ toString s.done
+
+def showFaults (s : Faults.St) : String :=
+  showNats s.src ++ " " ++ showNats s.dst ++ " " ++ (match s.pc with
+    | .start => "start" | .holding _ => "holding" | .copied _ => "copied" | .done => "done" | .cancelled => "cancelled")
+
+def parseMCmd (t : String) : Option MaildirFS.Cmd :=
+  match t.splitOn ":" with
+  | ["a", k, i] => some (.append k.toNat! i.toNat!)
+  | ["e", k] => some (.expunge k.toNat!)
+  | ["f", k, i] => some (.setFlags k.toNat! i.toNat!)
+  | ["c"] => some .cleanup
+  | _ => none
+
+def opKind : MaildirFS.FsOp → String
+  | .createTmp _ => "createTmp" | .link _ _ => "link" | .removeTmp _ => "removeTmp" | .lockCreate => "lockCreate" | .lockRemove => "lockRemove"
+  | .renameUL _ => "renameUL" | .renameInfo _ _ => "renameInfo" | .removeFile _ => "removeFile"
+
+/-- run the complete commands, then the first `n` system calls of the last one, then `recover` -/
+def mfsRun (cmds : List MaildirFS.Cmd) (n : Nat) : String :=
+  let d0 : MaildirFS.Disk := ⟨[], [], ⟨7, 1, []⟩, false⟩
+  match cmds.reverse with
+  | [] => "-"
+  | last :: revInit =>
+    let d := revInit.reverse.foldl (fun d c => (MaildirFS.ops d c).foldl MaildirFS.apply d) d0
+    let os := MaildirFS.ops d last
+    let crashed := (os.take n).foldl MaildirFS.apply d
+    let r := MaildirFS.recover crashed
+    s!"{os.length} {r.ul.next} " ++ ",".intercalate (os.map opKind) ++ " " ++
+      (let l := MaildirFS.listing r; if l.isEmpty then "-" else ";".intercalate (l.map (fun x => s!"{x.1}:{x.2.1}:{x.2.2}")))
+
 def srvOut (st : DState) (r : Server.Srv × Server.Resp) : DState × String := ({ st with srv := r.1 }, showResp r.2)
 
 /-- `sync add <uid>:<flags>;... | <expunged> | <hide>`  then  `sync fork <hide> <withUid>` -/
@@ -222,6 +265,36 @@ def handle (st : DState) (line : String) : DState × String :=
       match Layout.norm p with
       | none => (st, "ESCAPE")
       | some q => (st, if q.isEmpty then "SELF" else "/".intercalate (q.map showNats))
+  | ["faults", "reset", src, dst] => let s0 : Faults.St := ⟨parseNats src, parseNats dst, .start⟩; ({ st with faults := s0 }, showFaults s0)
+  | ["faults", "step", rep, c, l, x] =>
+    let lab : Faults.Label := if l == "step" then .step else if l == "cancel" then .cancel
+      else if l == "oexp" then .otherExpunge x.toNat! else .otherAppend x.toNat!
+    match Faults.step (rep == "1") c.toNat! st.faults lab with
+    | some s' => ({ st with faults := s' }, showFaults s')
+    | none => (st, "DISABLED")
+  | ["mfs", cmds, n] => (st, mfsRun ((cmds.splitOn ";").filterMap parseMCmd) n.toNat!)
+  | ["idle", "reset"] => ({ st with idle := Idle.St.init }, showIdle Idle.St.init)
+  | ["idle", "step", rep, l] =>
+    let lab : Idle.Label := if l == "change" then .change else if l == "done" then .clientDone else .idler
+    match Idle.step (rep == "1") st.idle lab with
+    | some s' => ({ st with idle := s' }, showIdle s')
+    | none => (st, "PARKED")
+  | ["idle", "drain", rep, n] =>
+    let s' := Idle.drain (rep == "1") n.toNat! st.idle
+    ({ st with idle := s' }, showIdle s')
+  | ["rw", "reset", progs] =>
+    let ps := (progs.splitOn ";").map (fun p => if p == "-" then [] else (p.splitOn ",").map (· == "1"))
+    let s0 := RWLock.St.init ps
+    ({ st with rw := s0 }, showRW s0)
+  | ["rw", "run", i] =>
+    match RWLock.step st.rw (.run i.toNat!) with
+    | some s' => ({ st with rw := s' }, showRW s')
+    | none => (st, "DISABLED")
+  | ["rw", "cancel", i] =>
+    match RWLock.step st.rw (.cancel i.toNat!) with
+    | some s' => ({ st with rw := s' }, showRW s')
+    | none => (st, "DISABLED")
+  | ["rw", "state"] => (st, showRW st.rw)
   | ["ns", "reset"] => ({ st with ns := ⟨0, [], [], 1⟩ }, "ok")
   | ["ns", "create", n] => let r := Namespace.create st.ns (parseNats n); ({ st with ns := r.1 }, if r.2 == .ok then "OK" else "NO")
   | ["ns", "delete", n] => let r := Namespace.delete st.ns (parseNats n); ({ st with ns := r.1 }, if r.2 == .ok then "OK" else "NO")
